@@ -19,6 +19,7 @@ DECIDED = [
     "sets the store-side expiry to the absolute time timestamp + ttl (exat), not to a ttl counted from the moment of storing",
     "R-C19-PERIOD: the periodic branch returns anchor + period * ((now - anchor) // period + 1) in exact timedelta/int arithmetic (no float "
     "conversion), i.e. a whole number of periods after the time base with the strict '+ 1'",
+    "R-C19-OVERDUE (clock form): all expiry tests read the clock the same way (sibling agreement); R-C19-PERIOD (whole durations): no duration is taken from timedelta.seconds/.microseconds without .days",
 ]
 NOT_DECIDED = ["the inequality now < next <= now + period as an arithmetic fact over runtime values (follows from the normal form by floor-division "
                "properties; the identity itself is not proven here)", "cron schedules (croniter)"]
@@ -32,6 +33,9 @@ def run(ctx: Ctx) -> None:
 
     redis_bucket_expiry(ctx, "R-C19-OVERDUE")  # the store-side expiry of buckets uses the same timestamp + ttl
     period(ctx)
+    from .delay import whole_duration_rule
+
+    whole_duration_rule(ctx, "R-C19-PERIOD")  # schedule arithmetic on whole durations: no delay / period / ttl is reduced to its sub-day remainder
 
 
 # ----------------------------------------------------------------------------- BACKOFF
